@@ -172,6 +172,18 @@ impl ChainService {
     }
 
     fn insert_block(&self, lonely_block: &LonelyBlock) -> Result<(), ckb_error::Error> {
+        // A hash that is already stored keeps the block it was stored with. The hash does not
+        // commit to everything a block carries (the proposals of an embedded uncle), and the
+        // later stages answer for a stored hash from the store (block ext, store cache), so the
+        // delivered copy must not replace columns which are waiting for or have passed the
+        // verification.
+        if self
+            .shared
+            .store()
+            .is_block_stored(&lonely_block.block().hash())
+        {
+            return Ok(());
+        }
         let db_txn = self.shared.store().begin_transaction();
         db_txn.insert_block(lonely_block.block())?;
         db_txn.commit()?;
